@@ -207,4 +207,313 @@ theorem defaults_witness_eigenshift :
 theorem defaults_faithful_partial :
     DefaultsFaithful (cliOptions.filter (fun r => r.canonical != "eigenshift")) := by decide +kernel
 
+/-! ## Part 3 — the data path: what is read, what the library receives, what is written -/
+
+/-- the expected data part of `run()` (hand-written from the property text): read with the delimiter; transpose
+    unless --transpose-input; embed with the ONE parameter set on either branch of --precompute; transpose the
+    embedding iff --transpose-output; write it with the delimiter; then, iff both projection files were requested and
+    the method returned a projection, write the projection matrix (as is) and the mean (one value per line). -/
+def specProjCond : Expr :=
+  .bin .and
+    (.ite (.bin .and (.count "output-projection-matrix-file") (.count "output-projection-mean-file"))
+      (.lit .flag "true") (.lit .flag "false"))
+    (.sym "output.projection.implementation")
+
+def specDataPart : List Step := [
+  .readData (.lit .flag "true") "input" (.value "input-file" .str) (.index0 (.value "delimiter" .str)),
+  .transpose (.not (.count "transpose-input")) "input",
+  .embed (.count "precompute") "parameters" "identity_indices(input.cols())" "" "" "",
+  .embed (.not (.count "precompute")) "parameters" "input" "" "" "",
+  .transpose (.count "transpose-output") "output.embedding",
+  .writeMatrix (.lit .flag "true") "output.embedding" (.value "output-file" .str) (.index0 (.value "delimiter" .str)),
+  .guard { cond := .bin .and specProjCond (.not (.sym "projection")), exit := 1, message := "Projection function unavailable" },
+  .writeMatrix specProjCond "projection.proj_mat" (.value "output-projection-matrix-file" .str)
+    (.index0 (.value "delimiter" .str)),
+  .writeVector specProjCond "projection.mean_vec" (.value "output-projection-mean-file" .str),
+  .ret 0
+]
+
+/-- the generated data part of run() IS the expected one (regenerated on every run: transposition on the wrong side, a
+    dropped delimiter argument, a second parameter set, a write to the wrong stream … change the left-hand side) -/
+theorem data_path_is_spec : dataPart cliSteps = specDataPart := by decide +kernel
+
+/-- all four streams are opened before the data is read (so a projection file that is requested but not written is
+    left EMPTY, not absent) -/
+theorem streams_opened_first :
+    (cliSteps.takeWhile Step.isPre).filter (fun s => match s with | .openIn _ | .openOut _ => true | _ => false) =
+      [.openIn (.value "input-file" .str), .openOut (.value "output-file" .str),
+       .openOut (.value "output-projection-matrix-file" .str), .openOut (.value "output-projection-mean-file" .str)] := by
+  decide +kernel
+
+/-- `shape`: the writer emits one line per row, each with exactly `cols` fields separated by the delimiter, every line
+    terminated by a newline, no trailing delimiter (the last field is a printed number) — for ALL matrices with at
+    least one column and every print/parse pair meeting the contract. -/
+theorem shape {α} {print : α → Str} {parse : Str → Option α} {d : Char} {r : α → α}
+    (hp : PrintParse print parse d r) (M : DMat α) (hwf : M.WF) (hc : 0 < M.cols) :
+    writeMatrix print d M = joinLines (M.rows.map (writeLine print d)) ∧
+    (M.rows.map (writeLine print d)).length = M.nrows ∧
+    ∀ l ∈ M.rows.map (writeLine print d),
+      '\n' ∉ l ∧ (splitOn d l).length = M.cols ∧ (splitOn d l).getLast? ≠ some [] := by
+  refine ⟨writeMatrix_eq_joinLines print d M, by simp [DMat.nrows], ?_⟩
+  intro l hl
+  obtain ⟨row, hrow, rfl⟩ := List.mem_map.mp hl
+  have hlen : row.length = M.cols := hwf row hrow
+  have hne : row ≠ [] := by
+    intro h
+    rw [h] at hlen
+    simp at hlen
+    omega
+  refine ⟨writeLine_no_newline hp row, ?_, ?_⟩
+  · rw [splitOn_writeLine hp row hne, List.length_map, hlen]
+  · rw [splitOn_writeLine hp row hne, List.getLast?_map]
+    intro h
+    cases hl : row.getLast? with
+    | none => simp [hl] at h
+    | some x =>
+      simp [hl] at h
+      exact hp.nonempty x h
+
+/-- N × d becomes d × N under --transpose-output, and stays well-formed -/
+theorem shape_transposed {α} (E : DMat α) (hwf : E.WF) (t : Bool) :
+    (writtenOutput t E).WF ∧
+    (writtenOutput t E).nrows = (if t then E.cols else E.nrows) ∧
+    (writtenOutput t E).cols = (if t then E.nrows else E.cols) := by
+  cases t
+  · exact ⟨hwf, rfl, rfl⟩
+  · exact ⟨transpose_WF E hwf, transpose_nrows E, transpose_cols E⟩
+
+/-- `read_write_roundtrip`: reading back what the writer wrote gives the same matrix, entry by entry up to the print
+    contract (`r` = one print/parse trip), for ALL matrices with at least one row and one column, all delimiters other
+    than newline, all print/parse pairs meeting the contract. -/
+theorem read_write_roundtrip {α} {print : α → Str} {parse : Str → Option α} {d : Char} {r : α → α}
+    (hp : PrintParse print parse d r) (M : DMat α) (hwf : M.WF) (hc : 0 < M.cols) (hn : M.rows ≠ []) :
+    readData parse d (writeMatrix print d M) = .ok { cols := M.cols, rows := M.rows.map (·.map r) } := by
+  have hrow_ne : ∀ row ∈ M.rows, row ≠ [] := by
+    intro row hrow h
+    have := hwf row hrow
+    rw [h] at this
+    simp at this
+    omega
+  have hlines : ∀ l ∈ M.rows.map (writeLine print d), '\n' ∉ l := by
+    intro l hl
+    obtain ⟨row, _, rfl⟩ := List.mem_map.mp hl
+    exact writeLine_no_newline hp row
+  have hfilter : (M.rows.map (writeLine print d)).filter (fun l => !l.isEmpty) = M.rows.map (writeLine print d) := by
+    rw [List.filter_eq_self]
+    intro l hl
+    obtain ⟨row, hrow, rfl⟩ := List.mem_map.mp hl
+    have := writeLine_ne_nil hp row (hrow_ne row hrow)
+    cases hw : writeLine print d row with
+    | nil => exact absurd hw this
+    | cons c cs => rfl
+  have hrows : readRows parse d (writeMatrix print d M) = M.rows.map (·.map r) := by
+    rw [writeMatrix_eq_joinLines, readRows_joinLines parse d _ hlines, hfilter, List.map_map]
+    apply List.map_congr_left
+    intro row hrow
+    exact lineValues_writeLine hp row (hrow_ne row hrow)
+  unfold readData
+  rw [hrows]
+  cases hM : M.rows with
+  | nil => exact absurd hM hn
+  | cons r0 rs =>
+    have h0 : r0.length = M.cols := hwf r0 (by simp [hM])
+    have hrs : ∀ x ∈ rs.map (·.map r), x.length = (r0.map r).length := by
+      intro x hx
+      obtain ⟨y, hy, rfl⟩ := List.mem_map.mp hx
+      have := hwf y (by simp [hM, hy])
+      simp [this, h0]
+    have := matrixOfRows_uniform (r0.map r) (rs.map (·.map r)) hrs
+    simpa [h0] using this
+
+/-- an empty matrix is written as the empty file and read back as the 0 × 0 matrix -/
+theorem read_write_empty {α} (print : α → Str) (parse : Str → Option α) (d : Char) (c : Nat) :
+    readData parse d (writeMatrix print d { cols := c, rows := [] }) = .ok { cols := 0, rows := [] } := by
+  simp [readData, writeMatrix, readRows, observedLines, splitOn, matrixOfRows]
+
+/-- ragged rows are an error of the reader (for ALL texts: whenever two collected rows differ in length) -/
+theorem ragged_rows_rejected {α} (parse : Str → Option α) (d : Char) (s : Str)
+    (h : ∃ r0 rs, readRows parse d s = r0 :: rs ∧ ∃ x ∈ rs, x.length ≠ r0.length) :
+    ∃ i, readData parse d s = .error (.ragged i) := by
+  obtain ⟨r0, rs, hr, hx⟩ := h
+  unfold readData
+  rw [hr]
+  exact matrixOfRows_ragged r0 rs hx
+
+/-- `transpose_input_semantics`: with F the matrix whose rows are the lines of the file, the library receives
+    `libraryInput given F` (columns are samples).  Without --transpose-input, coordinate k of sample s is field k of
+    line s; with it, coordinate k of sample s is field s of line k.  (`data_path_is_spec` says that exactly this
+    step, with this polarity, is what the code does; `runSteps_transpose_input` that the model interprets it so.) -/
+theorem transpose_input_semantics {α} (F : DMat α) (hwf : F.WF) (k s : Nat) (hk : k < F.cols) :
+    (libraryInput false F).get? k s = F.get? s k ∧ (libraryInput true F).get? k s = F.get? k s ∧
+    (libraryInput false F).cols = F.nrows ∧ (libraryInput false F).nrows = F.cols := by
+  refine ⟨?_, rfl, rfl, transpose_nrows F⟩
+  simp only [libraryInput]
+  exact transpose_get F hwf k s hk
+
+/-- FULL STATEMENT (false of the code as it stands): "one sample per line" — the rows `read_data` collects are the
+    values of the non-empty lines of the text. -/
+def OneSamplePerLine : Prop :=
+  ∀ (s : Str), readRows parseNum ',' s =
+    ((splitOn '\n' s).filter (fun l => !l.isEmpty)).map (lineValues parseNum ',')
+
+/-- F-CLI-EOF: a file whose last line is not terminated by a newline yields that line TWICE.  Witness: the one-line
+    file `1` gives two samples. -/
+theorem one_sample_per_line_refuted : ¬ OneSamplePerLine := by
+  intro h
+  have := h ['1']
+  revert this
+  decide +kernel
+
+/-- … and this is exactly what happens, for every such file -/
+theorem unterminated_last_line_duplicated {α} (parse : Str → Option α) (d : Char) (ls : List Str) (last : Str)
+    (h : ∀ l ∈ ls, '\n' ∉ l) (hl : '\n' ∉ last) (hne : last ≠ []) :
+    readRows parse d (joinLines ls ++ last) =
+      (ls.filter (fun l => !l.isEmpty)).map (lineValues parse d) ++ [lineValues parse d last, lineValues parse d last] :=
+  readRows_unterminated parse d ls last h hl hne
+
+/-- one sample per non-empty line holds for every text in which each line is terminated -/
+theorem one_sample_per_line_partial {α} (parse : Str → Option α) (d : Char) (ls : List Str)
+    (h : ∀ l ∈ ls, '\n' ∉ l) :
+    readRows parse d (joinLines ls) = (ls.filter (fun l => !l.isEmpty)).map (lineValues parse d) :=
+  readRows_joinLines parse d ls h
+
+/-! ## Part 4 — exit status -/
+
+theorem nameMaps_distinct : ∀ m ∈ nameMaps, nameMaps.find? (fun x => x.name == m.name) = some m := by decide +kernel
+
+/-- `bad_inputs_exit_nonzero`: for ALL option sets, input files and library behaviours —
+    * a method / neighbours-method / eigensolver / strategy name that is not a key of the generated map (∀ strings),
+    * a target dimension ≤ 0, fewer than 3 neighbours, a negative width, a negative timestep count,
+    * an option value cxxopts cannot parse, an unknown option,
+    * rows of unequal length in the input file
+    make `main()` return a non-zero status. -/
+theorem bad_inputs_exit_nonzero (readFile : String → Option Str) (lib : Lib) (o : Opts) :
+    (∀ m ∈ nameMaps, ∀ opt, Expr.lookupFails m.name (.value opt .str) ∈ specGuards →
+        textOf cliOptions o opt ∉ m.entries.map (·.1) → (cliMain readFile lib o).exit ≠ 0) ∧
+    (∀ n : Int, parseIntCxx (textOf cliOptions o "target-dimension").toList = some n → n ≤ 0 →
+        (cliMain readFile lib o).exit ≠ 0) ∧
+    (∀ n : Int, parseIntCxx (textOf cliOptions o "num-neighbors").toList = some n → n < 3 →
+        (cliMain readFile lib o).exit ≠ 0) ∧
+    (∀ x : Rat, parseNum (textOf cliOptions o "gaussian-width").toList = some x → x < 0 →
+        (cliMain readFile lib o).exit ≠ 0) ∧
+    (∀ n : Int, parseIntCxx (textOf cliOptions o "timesteps").toList = some n → n < 0 →
+        (cliMain readFile lib o).exit ≠ 0) ∧
+    (argvParses cliOptions o = false → (cliMain readFile lib o).exit ≠ 0) ∧
+    ((∀ name dl, fileName cliOptions nameMaps o (.value "input-file" .str) = some name →
+        delimOf cliOptions nameMaps o (.index0 (.value "delimiter" .str)) = some dl →
+        ∃ content i, readFile name = some content ∧
+          matrixOfRows (readRows parseNum dl content) = .error (.ragged i)) →
+      (cliMain readFile lib o).exit ≠ 0) := by
+  have hcatch : catchExit cliMainCatch ≠ 0 := main_catches_everything.1
+  refine ⟨?_, ?_, ?_, ?_, ?_, ?_, ?_⟩
+  · intro m hm opt hg hk
+    exact mainWith_guard_nonzero _ _ _ _ _ readFile lib o _ hcatch (guards_present _ hg)
+      (fun rt => evalCond_lookupFails _ _ rt o m opt (nameMaps_distinct m hm) hk)
+  · intro n hn hle
+    refine mainWith_guard_nonzero _ _ _ _ _ readFile lib o _ hcatch
+      (guards_present (.bin .le (.value "target-dimension" .int) (.lit .int "0")) (by decide)) (fun rt => ?_)
+    refine evalCond_int_cmp _ _ rt o _ .le "0" n 0 hn (by decide +kernel) ?_ (Or.inr rfl)
+    simpa [cmpOp] using (by exact_mod_cast hle : (n : Rat) ≤ 0)
+  · intro n hn hlt
+    refine mainWith_guard_nonzero _ _ _ _ _ readFile lib o _ hcatch
+      (guards_present (.bin .lt (.value "num-neighbors" .int) (.lit .int "3")) (by decide)) (fun rt => ?_)
+    refine evalCond_int_cmp _ _ rt o _ .lt "3" n 3 hn (by decide +kernel) ?_ (Or.inl rfl)
+    simpa [cmpOp] using (by exact_mod_cast hlt : (n : Rat) < 3)
+  · intro x hx hlt
+    refine mainWith_guard_nonzero _ _ _ _ _ readFile lib o _ hcatch
+      (guards_present (.bin .lt (.value "gaussian-width" .dbl) (.lit .dbl "0.0")) (by decide)) (fun rt => ?_)
+    exact evalCond_dbl_lt _ _ rt o _ "0.0" x 0 hx (by decide +kernel) hlt
+  · intro n hn hlt
+    refine mainWith_guard_nonzero _ _ _ _ _ readFile lib o _ hcatch
+      (guards_present (.bin .lt (.value "timesteps" .int) (.lit .int "0")) (by decide)) (fun rt => ?_)
+    refine evalCond_int_cmp _ _ rt o _ .lt "0" n 0 hn (by decide +kernel) ?_ (Or.inl rfl)
+    simpa [cmpOp] using (by exact_mod_cast hlt : (n : Rat) < 0)
+  · intro h
+    simp [cliMain, mainWith, h, hcatch]
+  · intro hrag
+    unfold cliMain mainWith
+    split
+    · simpa using hcatch
+    · exact runSteps_ragged_nonzero _ _ _ _ readFile lib o _ _ hcatch hrag cliSteps {} (by decide +kernel)
+
+/-- non-vacuity: the hypotheses are met by concrete command lines -/
+example : parseIntCxx (textOf cliOptions [⟨"target-dimension", 1, "0"⟩] "target-dimension").toList = some 0 := by
+  decide +kernel
+example : textOf cliOptions [⟨"method", 1, "foo"⟩] "method" ∉
+    ((nameMaps.find? (·.name == "DIMENSION_REDUCTION_METHODS")).map (·.entries.map (·.1))).getD [] := by decide +kernel
+example : matrixOfRows (readRows parseNum ',' "1,2\n3\n".toList) = .error (.ragged 1) := by decide +kernel
+
+/-! ## Part 5 — projection files and --precompute -/
+
+/-- `projection_files`: the projection matrix and the mean are written — to the files the two options name, the matrix
+    with the delimiter and as it is (D × d, no transposition step touches it), the mean one value per line — exactly
+    when BOTH options were given AND the method returned a projection; for ALL option sets.  Both streams are opened
+    in any case (`streams_opened_first`), so otherwise the files are left empty. -/
+theorem projection_files :
+    (cliSteps.filterMap (fun s => match s with
+        | .writeMatrix c w f d => if w != "output.embedding" then some (w, c, f, some d) else none
+        | .writeVector c w f => some (w, c, f, none)
+        | _ => none)) =
+      [("projection.proj_mat", specProjCond, .value "output-projection-matrix-file" .str,
+          some (.index0 (.value "delimiter" .str))),
+       ("projection.mean_vec", specProjCond, .value "output-projection-mean-file" .str, none)] ∧
+    (∀ s ∈ cliSteps, match s with
+        | .transpose _ t => t = "input" ∨ t = "output.embedding"
+        | _ => True) ∧
+    (∀ (o : Opts) (rt : Runtime), evalCond cliOptions nameMaps rt o specProjCond =
+        some (decide (0 < countOf o "output-projection-matrix-file") &&
+              decide (0 < countOf o "output-projection-mean-file") && rt.hasProjection)) := by
+  refine ⟨by decide +kernel, by decide +kernel, ?_⟩
+  intro o rt
+  have h1 := evalCond_count cliOptions nameMaps rt o "output-projection-matrix-file"
+  have h2 := evalCond_count cliOptions nameMaps rt o "output-projection-mean-file"
+  simp only [evalCond] at h1 h2
+  simp only [specProjCond, evalCond, eval]
+  cases ha : (eval cliOptions nameMaps rt o (.count "output-projection-matrix-file")).truthy with
+  | none => rw [ha] at h1; cases h1
+  | some a =>
+    cases hb : (eval cliOptions nameMaps rt o (.count "output-projection-mean-file")).truthy with
+    | none => rw [hb] at h2; cases h2
+    | some b =>
+      rw [ha] at h1
+      rw [hb] at h2
+      simp only [eval] at ha hb
+      cases h1
+      cases h2
+      simp only [ha, hb]
+      cases hA : decide (0 < countOf o "output-projection-matrix-file") <;>
+        cases hB : decide (0 < countOf o "output-projection-mean-file") <;>
+        cases hP : rt.hasProjection <;>
+        simp [hA, hB, hP, Val.truthy, litVal, eval] at *
+
+/-- `precompute_same_params`: no `tapkee::kw = expr` row mentions --precompute, both branches of `if (opt.count(
+    "precompute"))` pass the SAME parameter set and the same data to the library, and therefore the parameter set is the
+    same for any two command lines that differ in --precompute only.  (Equality of the RESULTS additionally needs the
+    precomputed callbacks to agree with the direct ones on what the method declares to need — C13; it fails for
+    Manifold Sculpting, which calls the distance callback although it declares `RequiresFeatures`: F-MS-TRAITS.) -/
+theorem precompute_same_params :
+    (∀ w ∈ cliWiring, "precompute" ∉ w.expr.opts) ∧
+    (∀ s ∈ cliSteps, match s with
+        | .embed _ p _ _ _ _ => p = "parameters"
+        | _ => True) ∧
+    (∀ o o' : Opts, (∀ n, n ≠ "precompute" → AgreeOn cliOptions o o' n) → cliParams o = cliParams o') := by
+  have h1 : ∀ w ∈ cliWiring, "precompute" ∉ w.expr.opts := by decide +kernel
+  refine ⟨h1, by decide +kernel, ?_⟩
+  intro o o' h
+  exact paramsOf_congr cliWiring cliOptions nameMaps o o' "precompute" h1 h
+
+/-- non-vacuity of the print/parse contract: a (trivial) pair that meets it -/
+example : PrintParse (α := Bool) (fun b => if b then ['1'] else ['0'])
+    (fun s => if s = ['1'] then some true else if s = ['0'] then some false else none) ',' id where
+  nonempty := by intro x; cases x <;> simp
+  no_delim := by intro x; cases x <;> decide
+  no_newline := by intro x; cases x <;> decide
+  delim_ne_newline := by decide
+  parse_print := by intro x; cases x <;> simp
+
+/-- the driver's concrete pair on samples (the general statement `∀ x, parseNum (printG6 x) ≈₆ x` is the number
+    contract validated by the correspondence, not proved) -/
+example : parseNum (printG6 (1 / 3)) = some (333333 / 1000000) := by decide +kernel
+example : parseNum (printG6 (-123456789 / 10)) = some (-12345700) := by decide +kernel
+
 end TapkeeVerif.Cli
